@@ -12,6 +12,8 @@ CONSTANTS
   DEV_ForkSharesLanelets = FALSE
   ForkAll = FALSE
   DEV_DrawMovesVertices = FALSE
+  DEV_RectKeepsExportedPolygon = FALSE
+  ShapeHist = FALSE
   DEV_DiscHalfRadius = TRUE
 INVARIANT TypeOK
 INVARIANT IndexMirrors
